@@ -28,7 +28,7 @@ RULE = (
     "{explicit, object} through uselinopparams: products inside the block == Jacobian at the NEW parameters, "
     "gradient w.r.t. a scale of the new parameters, products after the block == Jacobian at the original ones.  "
     "distinct = distinct observation tables; a case is trivial when no operator was produced")
-RULE_ADDED = 'Added later: operator constructed under torch.no_grad(), call-order plane in fresh interpreters. Round 4: kind nn_tied (one Parameter registered in two sub-modules). Round 6: expanded (zero-stride) operand batches; operators of one jac / hess call stay independent while one of them is substituted.'
+RULE_ADDED = 'Added later: operator constructed under torch.no_grad(), call-order plane in fresh interpreters. Round 4: kind nn_tied (one Parameter registered in two sub-modules). Round 6: expanded (zero-stride) operand batches; operators of one jac / hess call stay independent while one of them is substituted. Round 7: kind nn_hook (the torch.nn.Module object itself is the callable and a forward hook post-processes its output).'
 ASSUMPTIONS = [
     "function bodies are smooth (tanh, sin, sqrt(1+|a|^2), bilinear coupling) with N(0,1)-scaled fixed weights; values "
     "from a fixed generator stream (plane 0), thorough adds one plane derived from VERIF_SEED",
@@ -45,7 +45,7 @@ SELFTEST_N = 3
 SHP = {"s": (), "3": (3,), "2x2": (2, 2), "1x3": (1, 3)}
 SHN = ["s", "3", "2x2", "1x3"]
 OUT = {"s": (), "2": (2,), "2x3": (2, 3)}
-KINDS = ["pure", "nn", "em", "sib", "nn_tied"]     # nn_tied: one Parameter registered in two sub-modules
+KINDS = ["pure", "nn", "em", "sib", "nn_tied", "nn_hook"]     # nn_tied: one Parameter registered in two sub-modules
 XB = [(), (4,), (2, 1), ("e", 3, 2)]
 DT = torch.float64
 
@@ -122,6 +122,21 @@ class World:
             self.module = NN(theta0)
             self.fcn = self.module.forward
             self.theta_leaf = self.module.theta
+        elif self.kind == "nn_hook":
+            # the torch.nn.Module OBJECT is the callable, and a forward hook post-processes its output: the function
+            # that is differentiated is net(x) (hooks included), not net.forward
+            class NNH(torch.nn.Module):
+                def __init__(self, th):
+                    super().__init__()
+                    self.theta = torch.nn.Parameter(th)
+
+                def forward(self, *params):
+                    return fn(params, self.theta)
+            self.module = NNH(theta0)
+            self.module.register_forward_hook(lambda mod, inp, outp: 1.5 * outp - 0.2 * outp * outp)
+            self.fcn = self.module
+            self.theta_leaf = self.module.theta
+            self.post = (lambda y: 1.5 * y - 0.2 * y * y)
         elif self.kind == "nn_tied":
             class Sub(torch.nn.Module):
                 def __init__(self, th):
@@ -177,7 +192,7 @@ class World:
         """the tensor object currently installed as the object parameter"""
         if self.kind == "pure":
             return self.theta_const
-        if self.kind in ("nn", "nn_tied"):
+        if self.kind in ("nn", "nn_tied", "nn_hook"):
             return self.module.theta
         return self.module.b
 
